@@ -302,6 +302,8 @@ class Interp:
                 return Sym("self-call", m, tuple(map(repr, args)))
             self.effects.append(("method", m, repr(rv)))
             return Sym("method", m, repr(rv))
+        if k == "Index" and "index" in self.helpers:
+            return self.helpers["index"](self, e, env)
         if k == "Struct":
             return tuple([e["path"]] + [(f["member"], self.expr(f["e"], env)) for f in e["fields"]])
         if k == "Closure":
